@@ -369,6 +369,8 @@ type Scenario struct {
 	FaultProc, FaultAt int
 	// HookReads: reads of table files are hooked operations too (they can take the fault)
 	HookReads bool
+	// ClockStep: virtual time that passes per clock reading of a process (0 = 100us)
+	ClockStep time.Duration
 }
 
 type Result struct {
@@ -405,6 +407,7 @@ func (l *Lab) Run(sc *Scenario, dirName string) *Result {
 	s := vos.NewSched()
 	s.SkipTmpWrites = sc.SkipTmpWrites
 	s.HookReads = sc.HookReads
+	s.ClockStep = sc.ClockStep
 	s.PreOp = w.PreOp
 	s.PostOp = w.PostOp
 	s.OnCrash = w.OnCrash
